@@ -946,6 +946,52 @@ def nonvacuity(res, runs):
     res.add(tampered_observations_rejected=len(tampered))
 
 
+def replay(res, path):
+    """Re-run the macro violations of a replay file on the real code (one header, all macro option sets)."""
+    with open(path) as f:
+        rp = json.load(f)
+    C.build()
+    d = C.workdir("c05-replay")
+    lines, subjects = [], []
+    for i, v in enumerate(rp.get("violations", [])):
+        src = (v.get("detail") or {}).get("source") or ""
+        if src.startswith("#define ") and " / " not in src:
+            lines.append(src)
+            subjects.append((src.split()[1], v["key"], src))
+        elif " / " in src:
+            pre = "RP%03d_" % i
+            for l in src.split(" / "):
+                lines.append(re.sub(r"\b([A-D])\b", pre + r"\1", l))
+            subjects.append((pre + v["detail"]["name"].split("_")[-1], v["key"], src))
+        elif src and not src.startswith(("const ", "enum", "static ", "int ", "unsigned ")):
+            lines.append("#define RP%03d %s" % (i, src))
+            subjects.append(("RP%03d" % i, v["key"], src))
+    hp = os.path.join(d, "replay.h")
+    with open(hp, "w") as f:
+        f.write("\n".join(lines) + "\n")
+    runs = Runs()
+    jobs = [{"id": t, "args": BASE + [hp] + fl + (["--clang-macro-fallback-build-dir", d] if t == "fb" else []),
+             "out": os.path.join(d, "replay_%s.rs" % t), "callbacks": None} for t, fl, _ in MACRO_OPTS]
+    out = run_bindgen(jobs, "c05-replay-run")
+    bind = {j["id"]: j["out"] for j in jobs if out.get(j["id"], {}).get("outcome") == "ok"}
+    cvals, crej, rust, _ = probe_pair(d, "replay", hp, "c", [], [{"id": n, "expr": n} for n, _, _ in subjects], bind)
+    if cvals is None:
+        raise C.ToolError("replay: C probe failed: %s" % crej)
+    for t, _, opts in MACRO_OPTS:
+        if t not in rust or rust[t][0] is None:
+            continue
+        vals, _, rrej, _, _ = rust[t]
+        obs = []
+        for n, key, src in subjects:
+            obs.append(observe("macro", n, cvals.get(n), vals.get(n), rejected=rrej.get(n)))
+            runs.note("replay:" + t, n, form="replay", text=src, c=cvals.get(n), r=vals.get(n), model=None)
+        runs.add("replay:" + t, opts, obs)
+    viol, drift, counts, r = judge(runs, "replay")
+    res.add(states=r["distinct"], transitions=r["generated"], traces_validated_against_impl=len(runs.lines),
+            replayed_items=len(subjects))
+    report(res, runs, viol, drift)
+
+
 def run(res, tier):
     res.assumptions += [
         "the C value of a macro is the value of its expansion after the whole header (what a C user of the header sees), "
@@ -972,3 +1018,5 @@ def run(res, tier):
     report(res, runs, viol, drift)
     nonvacuity(res, runs)
     res.cov["exhaustive"] = False
+    for sub in ("c05-exprs", "c05-table", "c05-enums", "c05-vars", "c05-corpus", "c05-crash"):
+        shutil.rmtree(os.path.join(C.WORK, sub), ignore_errors=True)
